@@ -222,7 +222,7 @@ package router
 // flight), with a private copy of the question; nothing on this path blocks or contacts the upstream.
 //@ func (r *router) asyncSingleFlightPrefetch(q *dnsmsg.Question, remoteAddr netip.Addr, u *upstreamWrapper)
 //@   props C19 C20
-//@   requires r != nil && q != nil && r.cache != nil && r.prefetch != nil && r.prefetch.queue != nil && u != nil && r.cache.logger != nil && (r.cache.memory == nil || memOK(r.cache.memory)) && (r.cache.ipMarker == nil || markerOK(r.cache.ipMarker)) && (r.cache.redis == nil || redisOK(r.cache.redis)) && r.logger != nil && r.prefetchTotal != nil && r.ctx != nil
+//@   requires r != nil && q != nil && r.cache != nil && r.prefetch != nil && r.prefetch.queue != nil && uwOK(u) && r.cache.logger != nil && (r.cache.memory == nil || memOK(r.cache.memory)) && (r.cache.ipMarker == nil || markerOK(r.cache.ipMarker)) && (r.cache.redis == nil || redisOK(r.cache.redis)) && r.logger != nil && r.prefetchTotal != nil && r.ctx != nil
 //@   ghost nGo int = 0
 //@   ghost nRes int = 0
 //@   ghost okRes bool = false
@@ -326,10 +326,21 @@ package router
 //@   callsite Store: [C08:negative-flag] arg5 == (resp.RCode != 0)
 //@   callsite Store: [C08:lifetime] tns(arg3) - tns(arg2) == lifeOf(resp.RCode, hasRr, int(u) * sec(), int(c.maximumTtl))
 //@   callsite AsyncStore: [C08:never-truncated-redis] resp != nil && !resp.Truncated && arg5 == (resp.RCode != 0)
+//@ spec func uwOK(uw *upstreamWrapper) bool = uw != nil && uw.u != nil && uw.queryTotal != nil && uw.errTotal != nil && uw.thread != nil && uw.responseLatency != nil
+// upstreamWrapper.Exchange (metrics around one upstream): exactly one exchange, with this wrapper's upstream, the
+// caller's context and the caller's payload; what the upstream returned is what the caller gets.
 //@ func (uw *upstreamWrapper) Exchange(ctx context.Context, m []byte) (r *dnsmsg.Msg, err error)
-//@   trusted
-//@   requires uw != nil
+//@   props C10 C03 C20
+//@   requires uwOK(uw)
+//@   ghost nX int = 0
+//@   ghost gR *dnsmsg.Msg = nil
+//@   ghost gE error = nil
+//@   oncall ExchangeContext: nX = nX + 1
+//@   aftercall ExchangeContext: gR = ret0
+//@   aftercall ExchangeContext: gE = ret1
 //@   modifies nothing
+//@   callsite ExchangeContext: [C10:only-this-upstream-gets-the-query] arg0 == uw.u && arg1 == ctx && arg2 == m
+//@   ensures [C10,C03:exactly-one-exchange-and-its-outcome-is-returned] nX == 1 && r == gR && err == gE
 //@   ensures err == nil ==> r != nil && fresh(r) && wfMsg(r) && distinctFreshSecs(r) && len(r.Questions) <= 65535 && len(r.Answers) <= 65535 && len(r.Authorities) <= 65535 && len(r.Additionals) <= 65535
 //@   ensures err != nil ==> r == nil
 // a decoded reply is made of fresh objects only (its additional array and the records in it)
@@ -367,7 +378,7 @@ package router
 // removed (EDNS0 ends at the proxy).
 //@ func (r *router) forward(ctx context.Context, upstream *upstreamWrapper, q *dnsmsg.Question, remoteAddr netip.Addr) (resp *dnsmsg.Msg, err error)
 //@   props C10 C12
-//@   requires r != nil && upstream != nil && q != nil
+//@   requires r != nil && uwOK(upstream) && q != nil
 //@   ghost nEx int = 0
 //@   ghost gw pool.Buffer = nil
 //@   aftercall packReq: gw = ret0
@@ -384,7 +395,7 @@ package router
 
 //@ func (r *router) handleReq(ctx context.Context, q *dnsmsg.Question, rc *RequestContext)
 //@   props C03 C10 C12 C01 C19
-//@   requires r != nil && q != nil && rc != nil && r.cache != nil && r.cache.logger != nil && (r.cache.memory == nil || memOK(r.cache.memory)) && (r.cache.ipMarker == nil || markerOK(r.cache.ipMarker)) && (r.cache.redis == nil || redisOK(r.cache.redis)) && forall(k, 0, len(r.rules), r.rules[k] != nil)
+//@   requires r != nil && q != nil && rc != nil && r.cache != nil && r.cache.logger != nil && (r.cache.memory == nil || memOK(r.cache.memory)) && (r.cache.ipMarker == nil || markerOK(r.cache.ipMarker)) && (r.cache.redis == nil || redisOK(r.cache.redis)) && forall(k, 0, len(r.rules), r.rules[k] != nil && (r.rules[k].upstream == nil || uwOK(r.rules[k].upstream)))
 //@   requires r.queryCacheHitTotal != nil && r.prefetch != nil && r.prefetch.queue != nil && r.logger != nil && r.prefetchTotal != nil && r.ctx != nil && limOK(r.limiter)
 //@   modifies rc.Response.Msg, rc.Response.RuleIdx, rc.Response.Cached, rc.Response.IpMark, obj(r.prefetch.queue), field(limiter.e), field(time.Time)
 //@   ensures rc.Response.Msg != nil && fresh(rc.Response.Msg) && wfMsg(rc.Response.Msg)
@@ -430,7 +441,7 @@ package router
 
 //@ func (r *router) handleReqMsg(ctx context.Context, m *dnsmsg.Msg, rc *RequestContext)
 //@   props C03 C10 C12 C01
-//@   requires r != nil && m != nil && rc != nil && wfMsg(m) && r.cache != nil && r.cache.logger != nil && (r.cache.memory == nil || memOK(r.cache.memory)) && (r.cache.ipMarker == nil || markerOK(r.cache.ipMarker)) && (r.cache.redis == nil || redisOK(r.cache.redis)) && forall(k, 0, len(r.rules), r.rules[k] != nil)
+//@   requires r != nil && m != nil && rc != nil && wfMsg(m) && r.cache != nil && r.cache.logger != nil && (r.cache.memory == nil || memOK(r.cache.memory)) && (r.cache.ipMarker == nil || markerOK(r.cache.ipMarker)) && (r.cache.redis == nil || redisOK(r.cache.redis)) && forall(k, 0, len(r.rules), r.rules[k] != nil && (r.rules[k].upstream == nil || uwOK(r.rules[k].upstream)))
 //@   requires r.queryCacheHitTotal != nil && r.logger != nil && r.prefetch != nil && r.prefetch.queue != nil && r.prefetchTotal != nil && r.ctx != nil && limOK(r.limiter)
 //@   modifies rc.Response.Msg, rc.Response.RuleIdx, rc.Response.Cached, rc.Response.IpMark, obj(r.prefetch.queue), field(limiter.e), field(time.Time)
 //@   ensures rc.Response.Msg != nil && wfMsg(rc.Response.Msg)
@@ -493,7 +504,7 @@ package router
 
 //@ func (r *router) handleServerReq(m *dnsmsg.Msg, rc *RequestContext)
 //@   props C03 C01
-//@   requires r != nil && m != nil && rc != nil && wfMsg(m) && r.cache != nil && r.cache.logger != nil && (r.cache.memory == nil || memOK(r.cache.memory)) && (r.cache.ipMarker == nil || markerOK(r.cache.ipMarker)) && (r.cache.redis == nil || redisOK(r.cache.redis)) && forall(k, 0, len(r.rules), r.rules[k] != nil)
+//@   requires r != nil && m != nil && rc != nil && wfMsg(m) && r.cache != nil && r.cache.logger != nil && (r.cache.memory == nil || memOK(r.cache.memory)) && (r.cache.ipMarker == nil || markerOK(r.cache.ipMarker)) && (r.cache.redis == nil || redisOK(r.cache.redis)) && forall(k, 0, len(r.rules), r.rules[k] != nil && (r.rules[k].upstream == nil || uwOK(r.rules[k].upstream)))
 //@   requires r.queryCacheHitTotal != nil && r.logger != nil && r.queryTotal != nil && r.prefetch != nil && r.prefetch.queue != nil && r.prefetchTotal != nil && r.ctx != nil && limOK(r.limiter)
 //@   modifies rc.Response.Msg, rc.Response.RuleIdx, rc.Response.Cached, rc.Response.IpMark, obj(r.prefetch.queue), field(limiter.e), field(time.Time)
 //@   ensures [C03:always-a-response] rc.Response.Msg != nil && wfMsg(rc.Response.Msg)
@@ -503,7 +514,7 @@ package router
 
 // ---- listeners: one response write per handled request ------------------------------------------------
 
-//@ spec func routerReady(r *router) bool = r != nil && r.cache != nil && r.cache.logger != nil && (r.cache.memory == nil || memOK(r.cache.memory)) && (r.cache.ipMarker == nil || markerOK(r.cache.ipMarker)) && (r.cache.redis == nil || redisOK(r.cache.redis)) && forall(k, 0, len(r.rules), r.rules[k] != nil) && r.queryCacheHitTotal != nil && r.logger != nil && r.queryTotal != nil && r.prefetch != nil && r.prefetch.queue != nil && r.prefetchTotal != nil && r.ctx != nil && limOK(r.limiter)
+//@ spec func routerReady(r *router) bool = r != nil && r.cache != nil && r.cache.logger != nil && (r.cache.memory == nil || memOK(r.cache.memory)) && (r.cache.ipMarker == nil || markerOK(r.cache.ipMarker)) && (r.cache.redis == nil || redisOK(r.cache.redis)) && forall(k, 0, len(r.rules), r.rules[k] != nil && (r.rules[k].upstream == nil || uwOK(r.rules[k].upstream))) && r.queryCacheHitTotal != nil && r.logger != nil && r.queryTotal != nil && r.prefetch != nil && r.prefetch.queue != nil && r.prefetchTotal != nil && r.ctx != nil && limOK(r.limiter)
 // the payload size the client advertised: class of the last OPT record of the query, at least 512
 //@ spec func lastOPTAt(m *dnsmsg.Msg, k int) bool = 0 <= k && k < len(m.Additionals) && isOPT(m.Additionals[k]) && forall(j, k+1, len(m.Additionals), !isOPT(m.Additionals[j]))
 
@@ -581,7 +592,7 @@ package router
 // the refresh goroutine: releases its private question and the reservation exactly once, on every path
 //@ closure router.asyncSingleFlightPrefetch$1
 //@   props C19 C20
-//@   requires r != nil && r.prefetch != nil && r.prefetch.queue != nil && qCopy != nil && u != nil && r.cache != nil && r.cache.logger != nil && (r.cache.memory == nil || memOK(r.cache.memory)) && (r.cache.ipMarker == nil || markerOK(r.cache.ipMarker)) && (r.cache.redis == nil || redisOK(r.cache.redis)) && r.logger != nil && r.prefetchTotal != nil && r.ctx != nil
+//@   requires r != nil && r.prefetch != nil && r.prefetch.queue != nil && qCopy != nil && uwOK(u) && r.cache != nil && r.cache.logger != nil && (r.cache.memory == nil || memOK(r.cache.memory)) && (r.cache.ipMarker == nil || markerOK(r.cache.ipMarker)) && (r.cache.redis == nil || redisOK(r.cache.redis)) && r.logger != nil && r.prefetchTotal != nil && r.ctx != nil
 //@   ghost nDone int = 0
 //@   ghost nRel int = 0
 //@   oncall done: nDone = nDone + 1
@@ -594,7 +605,7 @@ package router
 
 //@ func (r *router) doPrefetch(q *dnsmsg.Question, remoteAddr netip.Addr, u *upstreamWrapper)
 //@   props C19 C08
-//@   requires r != nil && q != nil && u != nil && r.cache != nil && r.cache.logger != nil && (r.cache.memory == nil || memOK(r.cache.memory)) && (r.cache.ipMarker == nil || markerOK(r.cache.ipMarker)) && (r.cache.redis == nil || redisOK(r.cache.redis)) && r.logger != nil && r.prefetchTotal != nil && r.ctx != nil
+//@   requires r != nil && q != nil && uwOK(u) && r.cache != nil && r.cache.logger != nil && (r.cache.memory == nil || memOK(r.cache.memory)) && (r.cache.ipMarker == nil || markerOK(r.cache.ipMarker)) && (r.cache.redis == nil || redisOK(r.cache.redis)) && r.logger != nil && r.prefetchTotal != nil && r.ctx != nil
 //@   ghost nStore int = 0
 //@   ghost fwdErr error = nil
 //@   aftercall forward: fwdErr = ret1
@@ -610,7 +621,7 @@ package router
 // error, whatever else the rule says.
 //@ func (r *router) loadRule(cfg *RuleConfig) (ru *rule, err error)
 //@   props C10
-//@   requires r != nil && cfg != nil
+//@   requires r != nil && cfg != nil && upstreamsOK(r)
 //@   modifies nothing
 //@   ensures [C10:unknown-domain-set-rejected] len(cfg.Domain) > 0 && (!has(r.domainSets, cfg.Domain) || r.domainSets[cfg.Domain] == nil) ==> err != nil
 //@   ensures [C10:unknown-upstream-rejected] len(cfg.Forward) > 0 && (!has(r.upstreams, cfg.Forward) || r.upstreams[cfg.Forward] == nil) ==> err != nil
@@ -620,6 +631,7 @@ package router
 //@   ensures [C10:rule-mirrors-config] err == nil ==> ru != nil && fresh(ru) && ru.reject == cfg.Reject
 //@             && (len(cfg.Domain) > 0 ? ru.matcher == r.domainSets[cfg.Domain] && ru.reverse == cfg.Reverse : ru.matcher == nil && !ru.reverse)
 //@             && (len(cfg.Forward) > 0 ? ru.upstream == r.upstreams[cfg.Forward] : ru.upstream == nil)
+//@   ensures err == nil ==> ru.upstream == nil || uwOK(ru.upstream)
 
 // loadCA: the pool holds the certificates of the configured file and nothing else (it starts empty, never from the
 // system store), so "chains to the configured CA" means exactly that.
@@ -676,7 +688,7 @@ package router
 //@   modifies obj(r.upstreams)
 //@   ensures [C10:missing-tag-rejected] len(cfg.Tag) == 0 ==> err != nil
 //@   ensures [C10:dup-tag-rejected] old(has(r.upstreams, cfg.Tag)) ==> err != nil
-//@   ensures [C10:registered-under-tag] err == nil ==> has(r.upstreams, cfg.Tag) && r.upstreams[cfg.Tag] != nil && r.upstreams[cfg.Tag].u != nil
+//@   ensures [C10:registered-under-tag] err == nil ==> has(r.upstreams, cfg.Tag) && uwOK(r.upstreams[cfg.Tag])
 //@   ensures [C10:others-kept] forallkey(k, r.upstreams, (err != nil || k != keyOf(r.upstreams, cfg.Tag)) ==> has(r.upstreams, k) == old(has(r.upstreams, k)) && r.upstreams[k] == old(r.upstreams[k]))
 
 // loadDomainSet: a domain set is registered under its tag only; a missing or repeated tag is an error.
@@ -900,7 +912,7 @@ package router
 //@     modifies obj(r.domainSets), field(domainmatcher.labelNode), field(domainmatcher.DomainMatcher), field(domainmatcher.RegexpMatcher), maps(domainmatcher.labelNode)
 //@   loop 3:
 //@     invariant len(r.rules) == rangeindex_3 + 1
-//@     invariant forall(k, 0, rangeindex_3 + 1, r.rules[k] != nil)
+//@     invariant forall(k, 0, rangeindex_3 + 1, r.rules[k] != nil && (r.rules[k].upstream == nil || uwOK(r.rules[k].upstream)))
 //@     invariant forall(k, 0, rangeindex_3 + 1, ruleAsConfigured(r, r.rules[k], cfg.Rules[k].Reverse, cfg.Rules[k].Domain, cfg.Rules[k].Reject, cfg.Rules[k].Forward))
 //@   loop 4:
 //@     modifies r.serverClosers, obj(r.serverClosers)
@@ -1032,7 +1044,7 @@ package router
 
 // closeImpl (run at most once by close): works at every stage of start-up - in particular before the cache
 // exists - and calls every registered closer; it requires only what run() has established by then.
-//@ spec func upstreamsOK(r *router) bool = forallkey(k, r.upstreams, has(r.upstreams, k) ==> r.upstreams[k] != nil && r.upstreams[k].u != nil)
+//@ spec func upstreamsOK(r *router) bool = forallkey(k, r.upstreams, has(r.upstreams, k) ==> uwOK(r.upstreams[k]))
 //@ func (r *router) closeImpl(err error)
 //@   props C18
 //@   requires r != nil && r.cancel != nil && r.limiter != nil && closersOK(r) && upstreamsOK(r)
